@@ -11,8 +11,11 @@ the same n. This holds under NOR and HNO always and under APP and HAP wherever t
 does not exclude them (the Z-based Scott operations are documented as unsuitable for both)."
 
 Same three layers as C13 (see LC/Props/C13.lean): `Computes t n` for ALL arguments (convergence by
-induction, termination of NOR/HNO via C07, result of any normalising order via C06), plus the
-bounded layer 3 for the eager orders on the operations the documentation does not exclude.
+induction, termination of NOR/HNO via C07, result of any normalising order via C06), and — **unbounded
+too** — `reduce HAP 0` and `reduce APP 0` RETURN the expected encoding for all arguments on every operation
+the documentation does not exclude (`C14_*_hap`, `C14_*_app`; big-step eager semantics, one derivation per
+operation).  The excluded Z-based Scott operations are shown to DIVERGE under both eager orders
+(`C14_scott_z_based_diverge_*`), confirming the documentation.  A small kernel grid is kept as a cross-check.
 Binary: bits are Booleans with B0 ≡ TRUE, B1 ≡ FALSE and `lsb` returns the bit; `pred` and `shl0`
 may produce a leading zero and are compared after `strip`, as documented; `strip` itself is
 specified on ALL bit strings with leading zeroes (`binaryBits`).
@@ -21,6 +24,9 @@ import LC.Proofs.Layer2
 import LC.Proofs.Grid
 import LC.Proofs.Num.ScottParigot
 import LC.Proofs.Num.StumpFuBinary
+import LC.Proofs.Eager.ScottParigot
+import LC.Proofs.Eager.StumpFu
+import LC.Proofs.Eager.Binary
 import LC.Props.C12
 import LC.Props.C13
 
@@ -143,39 +149,327 @@ theorem C14_binary_strip (bs : List Bool) :
 example : ∃ fuel c, reduce .HNO 0 fuel (app2 Gen.Parigot.sub (intoParigot 5) (intoParigot 2))
     = some (intoParigot 3, c) := (C14_parigot_sub 5 2).hno
 
-/-! ### layer 3 (BOUNDED): the eager orders terminate on the grid, wherever the documentation does not
-exclude them (excluded: Scott add, mul, pow, to_church). -/
+/-! ### layer 3, unbounded: HAP and APP return the expected encoding for all arguments -/
+
+theorem C14_scott_succ_hap (n : Nat) :
+    ∃ fuel c, reduce .HAP 0 fuel (app Gen.Scott.succ (intoScott n)) = some (intoScott (n + 1), c) := by
+  have h := (scott_succ_hap n).reduce
+  first | exact h | simpa using h
+
+theorem C14_scott_succ_app (n : Nat) :
+    ∃ fuel c, reduce .APP 0 fuel (app Gen.Scott.succ (intoScott n)) = some (intoScott (n + 1), c) := by
+  have h := (scott_succ_app n).reduce
+  first | exact h | simpa using h
+
+theorem C14_scott_pred_hap (n : Nat) :
+    ∃ fuel c, reduce .HAP 0 fuel (app Gen.Scott.pred (intoScott n)) = some (intoScott (n - 1), c) := by
+  have h := (scott_pred_hap n).reduce
+  first | exact h | simpa using h
+
+theorem C14_scott_pred_app (n : Nat) :
+    ∃ fuel c, reduce .APP 0 fuel (app Gen.Scott.pred (intoScott n)) = some (intoScott (n - 1), c) := by
+  have h := (scott_pred_app n).reduce
+  first | exact h | simpa using h
+
+theorem C14_scott_is_zero_hap (n : Nat) :
+    ∃ fuel c, reduce .HAP 0 fuel (app Gen.Scott.is_zero (intoScott n)) = some (fromBool (n == 0), c) := by
+  have h := (scott_is_zero_hap n).reduce
+  first | exact h | simpa using h
+
+theorem C14_scott_is_zero_app (n : Nat) :
+    ∃ fuel c, reduce .APP 0 fuel (app Gen.Scott.is_zero (intoScott n)) = some (fromBool (n == 0), c) := by
+  have h := (scott_is_zero_app n).reduce
+  first | exact h | simpa using h
+
+theorem C14_parigot_succ_hap (n : Nat) :
+    ∃ fuel c, reduce .HAP 0 fuel (app Gen.Parigot.succ (intoParigot n)) = some (intoParigot (n + 1), c) := by
+  have h := (parigot_succ_hap n).reduce
+  first | exact h | simpa using h
+
+theorem C14_parigot_succ_app (n : Nat) :
+    ∃ fuel c, reduce .APP 0 fuel (app Gen.Parigot.succ (intoParigot n)) = some (intoParigot (n + 1), c) := by
+  have h := (parigot_succ_app n).reduce
+  first | exact h | simpa using h
+
+theorem C14_parigot_pred_hap (n : Nat) :
+    ∃ fuel c, reduce .HAP 0 fuel (app Gen.Parigot.pred (intoParigot n)) = some (intoParigot (n - 1), c) := by
+  have h := (parigot_pred_hap n).reduce
+  first | exact h | simpa using h
+
+theorem C14_parigot_pred_app (n : Nat) :
+    ∃ fuel c, reduce .APP 0 fuel (app Gen.Parigot.pred (intoParigot n)) = some (intoParigot (n - 1), c) := by
+  have h := (parigot_pred_app n).reduce
+  first | exact h | simpa using h
+
+theorem C14_parigot_is_zero_hap (n : Nat) :
+    ∃ fuel c, reduce .HAP 0 fuel (app Gen.Parigot.is_zero (intoParigot n)) = some (fromBool (n == 0), c) := by
+  have h := (parigot_is_zero_hap n).reduce
+  first | exact h | simpa using h
+
+theorem C14_parigot_is_zero_app (n : Nat) :
+    ∃ fuel c, reduce .APP 0 fuel (app Gen.Parigot.is_zero (intoParigot n)) = some (fromBool (n == 0), c) := by
+  have h := (parigot_is_zero_app n).reduce
+  first | exact h | simpa using h
+
+theorem C14_parigot_add_hap (m n : Nat) :
+    ∃ fuel c, reduce .HAP 0 fuel (app2 Gen.Parigot.add (intoParigot m) (intoParigot n)) = some (intoParigot (m + n), c) := by
+  have h := (parigot_add_hap m n).reduce
+  first | exact h | simpa using h
+
+theorem C14_parigot_add_app (m n : Nat) :
+    ∃ fuel c, reduce .APP 0 fuel (app2 Gen.Parigot.add (intoParigot m) (intoParigot n)) = some (intoParigot (m + n), c) := by
+  have h := (parigot_add_app m n).reduce
+  first | exact h | simpa using h
+
+theorem C14_parigot_sub_hap (m n : Nat) :
+    ∃ fuel c, reduce .HAP 0 fuel (app2 Gen.Parigot.sub (intoParigot m) (intoParigot n)) = some (intoParigot (m - n), c) := by
+  have h := (parigot_sub_hap m n).reduce
+  first | exact h | simpa using h
+
+theorem C14_parigot_sub_app (m n : Nat) :
+    ∃ fuel c, reduce .APP 0 fuel (app2 Gen.Parigot.sub (intoParigot m) (intoParigot n)) = some (intoParigot (m - n), c) := by
+  have h := (parigot_sub_app m n).reduce
+  first | exact h | simpa using h
+
+theorem C14_parigot_mul_hap (m n : Nat) :
+    ∃ fuel c, reduce .HAP 0 fuel (app2 Gen.Parigot.mul (intoParigot m) (intoParigot n)) = some (intoParigot (m * n), c) := by
+  have h := (parigot_mul_hap m n).reduce
+  first | exact h | simpa using h
+
+theorem C14_parigot_mul_app (m n : Nat) :
+    ∃ fuel c, reduce .APP 0 fuel (app2 Gen.Parigot.mul (intoParigot m) (intoParigot n)) = some (intoParigot (m * n), c) := by
+  have h := (parigot_mul_app m n).reduce
+  first | exact h | simpa using h
+
+theorem C14_stumpfu_succ_hap (n : Nat) :
+    ∃ fuel c, reduce .HAP 0 fuel (app Gen.StumpFu.succ (intoStumpFu n)) = some (intoStumpFu (n + 1), c) := by
+  have h := (stumpfu_succ_hap n).reduce
+  first | exact h | simpa using h
+
+theorem C14_stumpfu_succ_app (n : Nat) :
+    ∃ fuel c, reduce .APP 0 fuel (app Gen.StumpFu.succ (intoStumpFu n)) = some (intoStumpFu (n + 1), c) := by
+  have h := (stumpfu_succ_app n).reduce
+  first | exact h | simpa using h
+
+theorem C14_stumpfu_pred_hap (n : Nat) :
+    ∃ fuel c, reduce .HAP 0 fuel (app Gen.StumpFu.pred (intoStumpFu n)) = some (intoStumpFu (n - 1), c) := by
+  have h := (stumpfu_pred_hap n).reduce
+  first | exact h | simpa using h
+
+theorem C14_stumpfu_pred_app (n : Nat) :
+    ∃ fuel c, reduce .APP 0 fuel (app Gen.StumpFu.pred (intoStumpFu n)) = some (intoStumpFu (n - 1), c) := by
+  have h := (stumpfu_pred_app n).reduce
+  first | exact h | simpa using h
+
+theorem C14_stumpfu_is_zero_hap (n : Nat) :
+    ∃ fuel c, reduce .HAP 0 fuel (app Gen.StumpFu.is_zero (intoStumpFu n)) = some (fromBool (n == 0), c) := by
+  have h := (stumpfu_is_zero_hap n).reduce
+  first | exact h | simpa using h
+
+theorem C14_stumpfu_is_zero_app (n : Nat) :
+    ∃ fuel c, reduce .APP 0 fuel (app Gen.StumpFu.is_zero (intoStumpFu n)) = some (fromBool (n == 0), c) := by
+  have h := (stumpfu_is_zero_app n).reduce
+  first | exact h | simpa using h
+
+theorem C14_stumpfu_add_hap (m n : Nat) :
+    ∃ fuel c, reduce .HAP 0 fuel (app2 Gen.StumpFu.add (intoStumpFu m) (intoStumpFu n)) = some (intoStumpFu (m + n), c) := by
+  have h := (stumpfu_add_hap m n).reduce
+  first | exact h | simpa using h
+
+theorem C14_stumpfu_add_app (m n : Nat) :
+    ∃ fuel c, reduce .APP 0 fuel (app2 Gen.StumpFu.add (intoStumpFu m) (intoStumpFu n)) = some (intoStumpFu (m + n), c) := by
+  have h := (stumpfu_add_app m n).reduce
+  first | exact h | simpa using h
+
+theorem C14_stumpfu_mul_hap (m n : Nat) :
+    ∃ fuel c, reduce .HAP 0 fuel (app2 Gen.StumpFu.mul (intoStumpFu m) (intoStumpFu n)) = some (intoStumpFu (m * n), c) := by
+  have h := (stumpfu_mul_hap m n).reduce
+  first | exact h | simpa using h
+
+theorem C14_stumpfu_mul_app (m n : Nat) :
+    ∃ fuel c, reduce .APP 0 fuel (app2 Gen.StumpFu.mul (intoStumpFu m) (intoStumpFu n)) = some (intoStumpFu (m * n), c) := by
+  have h := (stumpfu_mul_app m n).reduce
+  first | exact h | simpa using h
+
+theorem C14_stumpfu_to_church_hap (n : Nat) :
+    ∃ fuel c, reduce .HAP 0 fuel (app Gen.StumpFu.to_church (intoStumpFu n)) = some (intoChurch n, c) := by
+  have h := (stumpfu_to_church_hap n).reduce
+  first | exact h | simpa using h
+
+theorem C14_stumpfu_to_church_app (n : Nat) :
+    ∃ fuel c, reduce .APP 0 fuel (app Gen.StumpFu.to_church (intoStumpFu n)) = some (intoChurch n, c) := by
+  have h := (stumpfu_to_church_app n).reduce
+  first | exact h | simpa using h
+
+theorem C14_stumpfu_to_scott_hap (n : Nat) :
+    ∃ fuel c, reduce .HAP 0 fuel (app Gen.StumpFu.to_scott (intoStumpFu n)) = some (intoScott n, c) := by
+  have h := (stumpfu_to_scott_hap n).reduce
+  first | exact h | simpa using h
+
+theorem C14_stumpfu_to_scott_app (n : Nat) :
+    ∃ fuel c, reduce .APP 0 fuel (app Gen.StumpFu.to_scott (intoStumpFu n)) = some (intoScott n, c) := by
+  have h := (stumpfu_to_scott_app n).reduce
+  first | exact h | simpa using h
+
+theorem C14_stumpfu_to_parigot_hap (n : Nat) :
+    ∃ fuel c, reduce .HAP 0 fuel (app Gen.StumpFu.to_parigot (intoStumpFu n)) = some (intoParigot n, c) := by
+  have h := (stumpfu_to_parigot_hap n).reduce
+  first | exact h | simpa using h
+
+theorem C14_stumpfu_to_parigot_app (n : Nat) :
+    ∃ fuel c, reduce .APP 0 fuel (app Gen.StumpFu.to_parigot (intoStumpFu n)) = some (intoParigot n, c) := by
+  have h := (stumpfu_to_parigot_app n).reduce
+  first | exact h | simpa using h
+
+theorem C14_church_to_scott_hap (n : Nat) :
+    ∃ fuel c, reduce .HAP 0 fuel (app Gen.Church.to_scott (intoChurch n)) = some (intoScott n, c) := by
+  have h := (church_to_scott_hap n).reduce
+  first | exact h | simpa using h
+
+theorem C14_church_to_scott_app (n : Nat) :
+    ∃ fuel c, reduce .APP 0 fuel (app Gen.Church.to_scott (intoChurch n)) = some (intoScott n, c) := by
+  have h := (church_to_scott_app n).reduce
+  first | exact h | simpa using h
+
+theorem C14_church_to_parigot_hap (n : Nat) :
+    ∃ fuel c, reduce .HAP 0 fuel (app Gen.Church.to_parigot (intoChurch n)) = some (intoParigot n, c) := by
+  have h := (church_to_parigot_hap n).reduce
+  first | exact h | simpa using h
+
+theorem C14_church_to_parigot_app (n : Nat) :
+    ∃ fuel c, reduce .APP 0 fuel (app Gen.Church.to_parigot (intoChurch n)) = some (intoParigot n, c) := by
+  have h := (church_to_parigot_app n).reduce
+  first | exact h | simpa using h
+
+theorem C14_church_to_stumpfu_hap (n : Nat) :
+    ∃ fuel c, reduce .HAP 0 fuel (app Gen.Church.to_stumpfu (intoChurch n)) = some (intoStumpFu n, c) := by
+  have h := (church_to_stumpfu_hap n).reduce
+  first | exact h | simpa using h
+
+theorem C14_church_to_stumpfu_app (n : Nat) :
+    ∃ fuel c, reduce .APP 0 fuel (app Gen.Church.to_stumpfu (intoChurch n)) = some (intoStumpFu n, c) := by
+  have h := (church_to_stumpfu_app n).reduce
+  first | exact h | simpa using h
+
+theorem C14_binary_is_zero_hap (n : Nat) :
+    ∃ fuel c, reduce .HAP 0 fuel (app Gen.Binary.is_zero (intoBinary n)) = some (fromBool (n == 0), c) := by
+  have h := (binary_is_zero_hap n).reduce
+  first | exact h | simpa using h
+
+theorem C14_binary_is_zero_app (n : Nat) :
+    ∃ fuel c, reduce .APP 0 fuel (app Gen.Binary.is_zero (intoBinary n)) = some (fromBool (n == 0), c) := by
+  have h := (binary_is_zero_app n).reduce
+  first | exact h | simpa using h
+
+theorem C14_binary_lsb_hap (n : Nat) :
+    ∃ fuel c, reduce .HAP 0 fuel (app Gen.Binary.lsb (intoBinary n)) = some (if n % 2 = 1 then Gen.Binary.b1 else Gen.Binary.b0, c) := by
+  have h := (binary_lsb_hap n).reduce
+  first | exact h | simpa using h
+
+theorem C14_binary_lsb_app (n : Nat) :
+    ∃ fuel c, reduce .APP 0 fuel (app Gen.Binary.lsb (intoBinary n)) = some (if n % 2 = 1 then Gen.Binary.b1 else Gen.Binary.b0, c) := by
+  have h := (binary_lsb_app n).reduce
+  first | exact h | simpa using h
+
+theorem C14_binary_succ_hap (n : Nat) :
+    ∃ fuel c, reduce .HAP 0 fuel (app Gen.Binary.succ (intoBinary n)) = some (intoBinary (n + 1), c) := by
+  have h := (binary_succ_hap n).reduce
+  first | exact h | simpa using h
+
+theorem C14_binary_succ_app (n : Nat) :
+    ∃ fuel c, reduce .APP 0 fuel (app Gen.Binary.succ (intoBinary n)) = some (intoBinary (n + 1), c) := by
+  have h := (binary_succ_app n).reduce
+  first | exact h | simpa using h
+
+theorem C14_binary_shl1_hap (n : Nat) :
+    ∃ fuel c, reduce .HAP 0 fuel (app Gen.Binary.shl1 (intoBinary n)) = some (intoBinary (2 * n + 1), c) := by
+  have h := (binary_shl1_hap n).reduce
+  first | exact h | simpa using h
+
+theorem C14_binary_shl1_app (n : Nat) :
+    ∃ fuel c, reduce .APP 0 fuel (app Gen.Binary.shl1 (intoBinary n)) = some (intoBinary (2 * n + 1), c) := by
+  have h := (binary_shl1_app n).reduce
+  first | exact h | simpa using h
+
+theorem C14_binary_shl0_hap (n : Nat) :
+    ∃ fuel c, reduce .HAP 0 fuel (app Gen.Binary.strip (app Gen.Binary.shl0 (intoBinary n))) = some (intoBinary (2 * n), c) := by
+  have h := (binary_shl0_hap n).reduce
+  first | exact h | simpa using h
+
+theorem C14_binary_shl0_app (n : Nat) :
+    ∃ fuel c, reduce .APP 0 fuel (app Gen.Binary.strip (app Gen.Binary.shl0 (intoBinary n))) = some (intoBinary (2 * n), c) := by
+  have h := (binary_shl0_app n).reduce
+  first | exact h | simpa using h
+
+theorem C14_binary_pred_hap (n : Nat) :
+    ∃ fuel c, reduce .HAP 0 fuel (app Gen.Binary.strip (app Gen.Binary.pred (intoBinary n))) = some (intoBinary (n - 1), c) := by
+  have h := (binary_pred_hap n).reduce
+  first | exact h | simpa using h
+
+theorem C14_binary_pred_app (n : Nat) :
+    ∃ fuel c, reduce .APP 0 fuel (app Gen.Binary.strip (app Gen.Binary.pred (intoBinary n))) = some (intoBinary (n - 1), c) := by
+  have h := (binary_pred_app n).reduce
+  first | exact h | simpa using h
+
+theorem C14_binary_strip_hap (bs : List Bool) :
+    ∃ fuel c, reduce .HAP 0 fuel (app Gen.Binary.strip (binaryBits bs)) = some (intoBinary (valueOf bs), c) := by
+  have h := (binary_strip_hap bs).reduce
+  first | exact h | simpa using h
+
+theorem C14_binary_strip_app (bs : List Bool) :
+    ∃ fuel c, reduce .APP 0 fuel (app Gen.Binary.strip (binaryBits bs)) = some (intoBinary (valueOf bs), c) := by
+  have h := (binary_strip_app bs).reduce
+  first | exact h | simpa using h
+
+/-- the Z-based Scott operations do not terminate under HAP on numerals, for any fuel (the documentation says
+they overflow the stack under the applicative family) -/
+theorem C14_scott_z_based_diverge_hap (m n fuel : Nat) :
+    reduce .HAP 0 fuel (app2 Gen.Scott.add (intoScott m) (intoScott n)) = none ∧
+    reduce .HAP 0 fuel (app2 Gen.Scott.mul (intoScott m) (intoScott n)) = none ∧
+    reduce .HAP 0 fuel (app2 Gen.Scott.pow (intoScott m) (intoScott n)) = none ∧
+    reduce .HAP 0 fuel (app Gen.Scott.to_church (intoScott n)) = none :=
+  ⟨scott_add_diverges_hap m n fuel, scott_mul_diverges_hap m n fuel, scott_pow_diverges_hap m n fuel,
+   scott_to_church_diverges_hap n fuel⟩
+
+/-- … and under APP for ANY argument terms (the combinator Z itself has no APP-normal form) -/
+theorem C14_scott_z_based_diverge_app (a b : Term) (fuel : Nat) :
+    reduce .APP 0 fuel (app2 Gen.Scott.add a b) = none ∧ reduce .APP 0 fuel (app2 Gen.Scott.mul a b) = none ∧
+    reduce .APP 0 fuel (app2 Gen.Scott.pow a b) = none ∧ reduce .APP 0 fuel (app Gen.Scott.to_church a) = none :=
+  ⟨scott_add_diverges_app a b fuel, scott_mul_diverges_app a b fuel, scott_pow_diverges_app a b fuel,
+   scott_to_church_diverges_app a fuel⟩
+
+/-! ### cross-check grid (BOUNDED; carries no claim any more) -/
 
 set_option maxRecDepth 100000 in
-theorem C14_grid_scott_succ : (List.range 6).all (fun n => (eager false).all (fun o =>
+theorem C14_grid_scott_succ : (List.range 4).all (fun n => (eager false).all (fun o =>
     Grid.runsTo o FUEL (app Gen.Scott.succ (intoScott n)) (intoScott (n + 1)))) = true := by decide +kernel
 
 set_option maxRecDepth 100000 in
-theorem C14_grid_scott_pred : (List.range 6).all (fun n => (eager false).all (fun o =>
+theorem C14_grid_scott_pred : (List.range 4).all (fun n => (eager false).all (fun o =>
     Grid.runsTo o FUEL (app Gen.Scott.pred (intoScott n)) (intoScott (n - 1)))) = true := by decide +kernel
 
 set_option maxRecDepth 100000 in
-theorem C14_grid_scott_is_zero : (List.range 6).all (fun n => (eager false).all (fun o =>
+theorem C14_grid_scott_is_zero : (List.range 4).all (fun n => (eager false).all (fun o =>
     Grid.runsTo o FUEL (app Gen.Scott.is_zero (intoScott n)) (fromBool (n == 0)))) = true := by decide +kernel
 
 set_option maxRecDepth 100000 in
-theorem C14_grid_parigot_succ : (List.range 6).all (fun n => (eager false).all (fun o =>
+theorem C14_grid_parigot_succ : (List.range 4).all (fun n => (eager false).all (fun o =>
     Grid.runsTo o FUEL (app Gen.Parigot.succ (intoParigot n)) (intoParigot (n + 1)))) = true := by decide +kernel
 
 set_option maxRecDepth 100000 in
-theorem C14_grid_parigot_pred : (List.range 6).all (fun n => (eager false).all (fun o =>
+theorem C14_grid_parigot_pred : (List.range 4).all (fun n => (eager false).all (fun o =>
     Grid.runsTo o FUEL (app Gen.Parigot.pred (intoParigot n)) (intoParigot (n - 1)))) = true := by decide +kernel
 
 set_option maxRecDepth 100000 in
-theorem C14_grid_parigot_is_zero : (List.range 6).all (fun n => (eager false).all (fun o =>
+theorem C14_grid_parigot_is_zero : (List.range 4).all (fun n => (eager false).all (fun o =>
     Grid.runsTo o FUEL (app Gen.Parigot.is_zero (intoParigot n)) (fromBool (n == 0)))) = true := by decide +kernel
 
 set_option maxRecDepth 100000 in
-theorem C14_grid_parigot_add : (Grid.range2 3 3).all (fun (m, n) => (eager false).all (fun o =>
+theorem C14_grid_parigot_add : (Grid.range2 2 2).all (fun (m, n) => (eager false).all (fun o =>
     Grid.runsTo o FUEL (app2 Gen.Parigot.add (intoParigot m) (intoParigot n)) (intoParigot (m + n)))) = true := by decide +kernel
 
 set_option maxRecDepth 100000 in
-theorem C14_grid_parigot_sub : (Grid.range2 3 3).all (fun (m, n) => (eager false).all (fun o =>
+theorem C14_grid_parigot_sub : (Grid.range2 2 2).all (fun (m, n) => (eager false).all (fun o =>
     Grid.runsTo o FUEL (app2 Gen.Parigot.sub (intoParigot m) (intoParigot n)) (intoParigot (m - n)))) = true := by decide +kernel
 
 set_option maxRecDepth 100000 in
@@ -183,19 +477,19 @@ theorem C14_grid_parigot_mul : (Grid.range2 2 2).all (fun (m, n) => (eager false
     Grid.runsTo o FUEL (app2 Gen.Parigot.mul (intoParigot m) (intoParigot n)) (intoParigot (m * n)))) = true := by decide +kernel
 
 set_option maxRecDepth 100000 in
-theorem C14_grid_stumpfu_succ : (List.range 6).all (fun n => (eager false).all (fun o =>
+theorem C14_grid_stumpfu_succ : (List.range 4).all (fun n => (eager false).all (fun o =>
     Grid.runsTo o FUEL (app Gen.StumpFu.succ (intoStumpFu n)) (intoStumpFu (n + 1)))) = true := by decide +kernel
 
 set_option maxRecDepth 100000 in
-theorem C14_grid_stumpfu_pred : (List.range 6).all (fun n => (eager false).all (fun o =>
+theorem C14_grid_stumpfu_pred : (List.range 4).all (fun n => (eager false).all (fun o =>
     Grid.runsTo o FUEL (app Gen.StumpFu.pred (intoStumpFu n)) (intoStumpFu (n - 1)))) = true := by decide +kernel
 
 set_option maxRecDepth 100000 in
-theorem C14_grid_stumpfu_is_zero : (List.range 6).all (fun n => (eager false).all (fun o =>
+theorem C14_grid_stumpfu_is_zero : (List.range 4).all (fun n => (eager false).all (fun o =>
     Grid.runsTo o FUEL (app Gen.StumpFu.is_zero (intoStumpFu n)) (fromBool (n == 0)))) = true := by decide +kernel
 
 set_option maxRecDepth 100000 in
-theorem C14_grid_stumpfu_add : (Grid.range2 3 3).all (fun (m, n) => (eager false).all (fun o =>
+theorem C14_grid_stumpfu_add : (Grid.range2 2 2).all (fun (m, n) => (eager false).all (fun o =>
     Grid.runsTo o FUEL (app2 Gen.StumpFu.add (intoStumpFu m) (intoStumpFu n)) (intoStumpFu (m + n)))) = true := by decide +kernel
 
 set_option maxRecDepth 100000 in
@@ -203,55 +497,55 @@ theorem C14_grid_stumpfu_mul : (Grid.range2 2 2).all (fun (m, n) => (eager false
     Grid.runsTo o FUEL (app2 Gen.StumpFu.mul (intoStumpFu m) (intoStumpFu n)) (intoStumpFu (m * n)))) = true := by decide +kernel
 
 set_option maxRecDepth 100000 in
-theorem C14_grid_stumpfu_to_church : (List.range 6).all (fun n => (eager false).all (fun o =>
+theorem C14_grid_stumpfu_to_church : (List.range 4).all (fun n => (eager false).all (fun o =>
     Grid.runsTo o FUEL (app Gen.StumpFu.to_church (intoStumpFu n)) (intoChurch n))) = true := by decide +kernel
 
 set_option maxRecDepth 100000 in
-theorem C14_grid_stumpfu_to_scott : (List.range 6).all (fun n => (eager false).all (fun o =>
+theorem C14_grid_stumpfu_to_scott : (List.range 4).all (fun n => (eager false).all (fun o =>
     Grid.runsTo o FUEL (app Gen.StumpFu.to_scott (intoStumpFu n)) (intoScott n))) = true := by decide +kernel
 
 set_option maxRecDepth 100000 in
-theorem C14_grid_stumpfu_to_parigot : (List.range 6).all (fun n => (eager false).all (fun o =>
+theorem C14_grid_stumpfu_to_parigot : (List.range 4).all (fun n => (eager false).all (fun o =>
     Grid.runsTo o FUEL (app Gen.StumpFu.to_parigot (intoStumpFu n)) (intoParigot n))) = true := by decide +kernel
 
 set_option maxRecDepth 100000 in
-theorem C14_grid_church_to_scott : (List.range 6).all (fun n => (eager false).all (fun o =>
+theorem C14_grid_church_to_scott : (List.range 4).all (fun n => (eager false).all (fun o =>
     Grid.runsTo o FUEL (app Gen.Church.to_scott (intoChurch n)) (intoScott n))) = true := by decide +kernel
 
 set_option maxRecDepth 100000 in
-theorem C14_grid_church_to_parigot : (List.range 6).all (fun n => (eager false).all (fun o =>
+theorem C14_grid_church_to_parigot : (List.range 4).all (fun n => (eager false).all (fun o =>
     Grid.runsTo o FUEL (app Gen.Church.to_parigot (intoChurch n)) (intoParigot n))) = true := by decide +kernel
 
 set_option maxRecDepth 100000 in
-theorem C14_grid_church_to_stumpfu : (List.range 6).all (fun n => (eager false).all (fun o =>
+theorem C14_grid_church_to_stumpfu : (List.range 4).all (fun n => (eager false).all (fun o =>
     Grid.runsTo o FUEL (app Gen.Church.to_stumpfu (intoChurch n)) (intoStumpFu n))) = true := by decide +kernel
 
 set_option maxRecDepth 100000 in
-theorem C14_grid_binary_is_zero : (List.range 20).all (fun n => (eager false).all (fun o =>
+theorem C14_grid_binary_is_zero : (List.range 9).all (fun n => (eager false).all (fun o =>
     Grid.runsTo o FUEL (app Gen.Binary.is_zero (intoBinary n)) (fromBool (n == 0)))) = true := by decide +kernel
 
 set_option maxRecDepth 100000 in
-theorem C14_grid_binary_lsb : (List.range 20).all (fun n => (eager false).all (fun o =>
+theorem C14_grid_binary_lsb : (List.range 9).all (fun n => (eager false).all (fun o =>
     Grid.runsTo o FUEL (app Gen.Binary.lsb (intoBinary n)) (if n % 2 = 1 then Gen.Binary.b1 else Gen.Binary.b0))) = true := by decide +kernel
 
 set_option maxRecDepth 100000 in
-theorem C14_grid_binary_succ : (List.range 20).all (fun n => (eager false).all (fun o =>
+theorem C14_grid_binary_succ : (List.range 9).all (fun n => (eager false).all (fun o =>
     Grid.runsTo o FUEL (app Gen.Binary.succ (intoBinary n)) (intoBinary (n + 1)))) = true := by decide +kernel
 
 set_option maxRecDepth 100000 in
-theorem C14_grid_binary_shl1 : (List.range 20).all (fun n => (eager false).all (fun o =>
+theorem C14_grid_binary_shl1 : (List.range 9).all (fun n => (eager false).all (fun o =>
     Grid.runsTo o FUEL (app Gen.Binary.shl1 (intoBinary n)) (intoBinary (2 * n + 1)))) = true := by decide +kernel
 
 set_option maxRecDepth 100000 in
-theorem C14_grid_binary_shl0 : (List.range 20).all (fun n => (eager false).all (fun o =>
+theorem C14_grid_binary_shl0 : (List.range 9).all (fun n => (eager false).all (fun o =>
     Grid.runsTo o FUEL (app Gen.Binary.strip (app Gen.Binary.shl0 (intoBinary n))) (intoBinary (2 * n)))) = true := by decide +kernel
 
 set_option maxRecDepth 100000 in
-theorem C14_grid_binary_pred : (List.range 20).all (fun n => (eager false).all (fun o =>
+theorem C14_grid_binary_pred : (List.range 9).all (fun n => (eager false).all (fun o =>
     Grid.runsTo o FUEL (app Gen.Binary.strip (app Gen.Binary.pred (intoBinary n))) (intoBinary (n - 1)))) = true := by decide +kernel
 
 set_option maxRecDepth 100000 in
-theorem C14_grid_binary_strip : (List.range 20).all (fun n => (eager false).all (fun o =>
+theorem C14_grid_binary_strip : (List.range 9).all (fun n => (eager false).all (fun o =>
     Grid.runsTo o FUEL (app Gen.Binary.strip (intoBinary n)) (intoBinary n))) = true := by decide +kernel
 
 end LC
